@@ -469,6 +469,42 @@ async fn round(
             }
         }
     }
+    // what relying parties are served is what the server accepted: every
+    // accepted publication reaches the RRDP snapshot once the queue is idle
+    // (a follow-up dropped because "the same task is running already" would
+    // leave accepted objects staged for ever)
+    {
+        let repo_dir = dir.join("repo");
+        let want: BTreeMap<String, Vec<u8>> = files.iter()
+            .map(|(u, b)| (u.clone(), b.to_vec())).collect();
+        let mut served_ok = false;
+        let mut last = String::new();
+        for _ in 0..40 {
+            match kvh::rrdpview::read_rrdp(&repo_dir) {
+                Ok(st) if st.snapshot == want => { served_ok = true; break }
+                Ok(st) => {
+                    let missing: Vec<&String> = want.keys()
+                        .filter(|u| st.snapshot.get(*u) != want.get(*u))
+                        .take(4).collect();
+                    last = format!("serial {}: not (or differently) served: \
+                                    {missing:?}", st.serial);
+                }
+                Err(e) => last = e,
+            }
+            tokio::time::sleep(Duration::from_millis(500)).await;
+        }
+        r.eval();
+        r.count("served_content_comparisons", 1);
+        if !served_ok {
+            let (p, rr) = queue_state(view);
+            return Some(("accepted-content-not-served-after-catch-up".into(),
+                format!("20 s after the queue became idle the RRDP snapshot \
+                         still differs from the accepted content: {last}; \
+                         running {rr:?}, pending {:?}",
+                        p.iter().map(|x| &x.1).take(6).collect::<Vec<_>>()),
+                wit(json!({}))))
+        }
+    }
     let ta = manager.ta_cer().await.ok().and_then(|b| Cert::decode(b).ok());
     let Some(ta) = ta else {
         return Some(("no-ta-certificate".into(), String::new(), wit(json!({}))))
